@@ -205,8 +205,8 @@ fn varnum_workload(report: &mut Report, cli: &Cli, cfg: &Cfg) {
     for st in results {
         total.merge(st);
     }
-    if exhaustive && total.ints != 1u64 << 32 {
-        report.inconclusive_fatal(&format!("the exhaustive VarInt sweep evaluated {} values instead of 2^32", total.ints));
+    if exhaustive && total.ints + total.skipped != 1u64 << 32 {
+        report.inconclusive_fatal(&format!("the exhaustive VarInt sweep visited {} values instead of 2^32", total.ints + total.skipped));
     }
     report.set("varint_exhaustive", json!(exhaustive && total.ints == 1u64 << 32));
     report.set(
@@ -271,7 +271,21 @@ fn samples(report: &mut Report) {
     }
 }
 
+/// Panics of the code under test are caught and judged; print the first few, not millions.
+fn quiet_panics() {
+    static SEEN: std::sync::atomic::AtomicUsize = std::sync::atomic::AtomicUsize::new(0);
+    std::panic::set_hook(Box::new(|info| {
+        let n = SEEN.fetch_add(1, std::sync::atomic::Ordering::Relaxed);
+        if n < 3 {
+            eprintln!("[C09] panic caught: {info}");
+        } else if n == 3 {
+            eprintln!("[C09] further panic messages are suppressed (they are counted and judged)");
+        }
+    }));
+}
+
 fn main() {
+    quiet_panics();
     let cli = Cli::parse();
     report::watchdog(&cli.prop, 1500);
     let mut report = Report::new(&cli, "exploration", RULE);
